@@ -23,6 +23,12 @@ def cases(tier, rng):
     yield {'kind': 'mux', 'term': [['split', ['big_of'], [['count', True]]]], 'items': [5, 5, 5, 7, 7, 5]}
     yield {'kind': 'mux', 'term': [['split', ['key_of'], [['to_list']]]], 'items': []}
     yield {'kind': 'mux', 'term': [['roll', 3, 3, [['split', ['const', None], [['count', True]]]]]], 'items': [1, 2, 3, 4, 5, 6, 7]}
+    # predicate values that are not equal to themselves (one shared NaN object): the property says "differs (by !=)".
+    # Outside the model's value domain (decidable equality): judged by the oracle on the real code only.
+    for items in ([3, 4, 5], [1, 3, 3, 2], [3], [3, 3, 3, 1, 1, 3], [2, 3, 3, 3, 4, 4], [1, 2, 3, 3]):
+        for inner in ([['to_list']], [['count', True]]):
+            yield {'kind': 'mux', 'term': [['split', ['nan_if_mod', 3, 0], inner]], 'items': items, 'no_model': True}
+            yield {'kind': 'mux', 'term': [['group_by', ['mod', 2], [['split', ['nan_if_mod', 3, 0], inner]]]], 'items': items, 'no_model': True}
     n = {'quick': 1500, 'thorough': 10000, 'search': 600}[tier]
     for _ in range(n):
         p = rng.choice(PREDS)
@@ -33,6 +39,18 @@ def cases(tier, rng):
         base = rng.choice([[0, 1, 2, 3, 4, 5, 6, 7, 8], [1, 1, 1, 2, 2, 3], [4], [2, 2, 2, 2]])
         items = [rng.choice(base) for _ in range(k)]
         yield {'kind': 'mux', 'term': term, 'items': items}
+
+
+def model_cmds(case):
+    return [] if case.get('no_model') else muxprop.model_cmds(case)
+
+
+def model_result(case, ans):
+    return {} if case.get('no_model') else muxprop.model_result(case, ans)
+
+
+def compare(case, r, m):
+    return None if case.get('no_model') else muxprop.compare(case, r, m)
 
 
 def nontrivial(case, r):
